@@ -21,11 +21,13 @@ mod e_c05;
 mod e_decode;
 mod e_emit;
 mod e_c06;
+mod e_c07;
 mod e_c09;
 mod e_c10;
 mod e_c11;
 mod e_c12;
 mod e_c13;
+mod e_c15;
 mod e_c16;
 mod e_c18;
 mod e_c19;
@@ -86,11 +88,13 @@ fn main() {
         "c05" => e_c05::run(&ctx),
         "decode" => e_decode::run(&ctx),
         "c06" => e_c06::run(&ctx),
+        "c07worker" => e_c07::worker(&ctx),
         "c09" => e_c09::run(&ctx),
         "c10" => e_c10::run(&ctx),
         "c11" => e_c11::run(&ctx),
         "c12" => e_c12::run(&ctx),
         "c13" => e_c13::run(&ctx),
+        "c15" => e_c15::run(&ctx),
         "c16" => e_c16::run(&ctx),
         "c18" => e_c18::run(&ctx),
         "c19" => e_c19::run(&ctx),
